@@ -37,7 +37,7 @@ seeded changes and which check catches which in §11.
   1. **Verus** (unbounded, deductive) on function text **extracted mechanically from `/repo/src` on every run**,
      rewritten only by a fixed, logged list of token-level rules (§2.2), with contracts merged in from side-car files in
      `/verif/contracts/`. 22 units, ≈ 80 extracted items (functions, closures, types), ≈ 560 verified functions and lemmas (Verus's "verified"
-     count) carrying ≈ 890 contract clauses, 1–13 s per unit.
+     count) carrying ≈ 1030 contract clauses, 1–13 s per unit.
   2. **Kani, loop-free / full domain** (complete): `ch_width(c) <= c.len_utf8()` for every `char`, both feature sets (K1); the float-exactness facts C05's one-line argument uses, for every pair of `usize` operands (K3).
   3. **Kani, bounded**: `wrap_first_fit` with bit-precise IEEE-754 floats, 3 fragments (K2, thorough tier of C07) — labelled *bounded*.
   4. **Bounded exhaustive contract checking (BEC)**: the same contracts in executable form, evaluated on the real crate
